@@ -395,11 +395,28 @@ fn gen_lines(rng: &mut Rng, texts: &[Vec<char>]) -> Vec<String> {
                 to_string(t)
             }
         };
-        // a line is what BufRead::lines yields: no LF, no trailing CR
+        // a line is what BufRead::lines yields: no LF; a trailing CR only when the stream had another CR before the
+        // line terminator (the stream writer below takes care of that)
         let l: String = l.replace('\n', " ");
-        let l = l.trim_end_matches('\r').to_string();
+        let mut l = l.trim_end_matches('\r').to_string();
+        if rng.chance(1, 8) {
+            l.push('\r');
+            if rng.chance(1, 3) {
+                l.push('\r');
+            }
+        }
         let _ = i;
         v.push(l);
+    }
+    // consecutive lines that differ only in width (same normalised form): original, normalised spelling, original
+    if rng.chance(1, 3) {
+        let i = rng.below(v.len());
+        let n = norm::normalise(&v[i]);
+        if n != v[i] && !v[i].ends_with('\r') {
+            let orig = v[i].clone();
+            v.insert(i + 1, n);
+            v.insert(i + 2, orig);
+        }
     }
     v
 }
@@ -417,13 +434,19 @@ pub fn run_c20p(ctx: &mut Ctx, from: u64, to: u64) {
         let model_path = scratch(ctx, "predict-model.zst");
         write_zst(&model_path, &m.to_bytes());
         let lines = gen_lines(&mut rng, &case.texts);
-        let mut input = lines.join("\n");
-        if rng.chance(3, 4) {
-            input.push('\n');
-        } else if lines.last().map(|l| l.is_empty()).unwrap_or(false) {
-            // a final empty line without terminator is not a line for BufRead::lines
-            input.push('\n');
+        // LF or CRLF terminators; a line that itself ends with CR needs CRLF (else its CR would be taken for the terminator's)
+        let crlf_file = rng.chance(1, 4);
+        let mut input = String::new();
+        for (i, l) in lines.iter().enumerate() {
+            input.push_str(l);
+            let last = i + 1 == lines.len();
+            let must_terminate = l.is_empty() || l.ends_with('\r');
+            if !last || must_terminate || rng.chance(3, 4) {
+                input.push_str(if l.ends_with('\r') || crlf_file { "\r\n" } else { "\n" });
+            }
         }
+        ctx.flag("streams_with_crlf_terminators", crlf_file);
+        ctx.flag("streams_with_line_ending_in_cr", lines.iter().any(|l| l.ends_with('\r')));
         ctx.flag("streams_with_empty_first_line", lines[0].is_empty());
         ctx.flag("streams_with_rejected_line", lines.iter().any(|l| l.is_empty() || l.contains('\0')));
         ctx.flag("models_with_tag_models", !m.tag_models.is_empty());
@@ -768,6 +791,24 @@ pub fn run_c11cli(ctx: &mut Ctx, from: u64, to: u64) {
                 }
             }
         }
+        if k % 6 == 4 {
+            // a line made of kana and of characters the normaliser maps to others of the same UTF-8 width
+            // (no character that grows under normalisation), every token tagged
+            let cs: Vec<char> = "｢あ｣､い～―う".chars().collect();
+            let n = cs.len();
+            let k_tags = tc.corpus.iter().map(|s| s.max_tags()).max().unwrap_or(0).max(1);
+            tc.corpus.push(fmt::RefSentence { chars: cs, labels: vec![1; n - 1], tags: vec![vec![Some("S".to_string()); k_tags]; n] });
+            ctx.count("corpus_lines_of_same_width_normaliser_keys", 1);
+        }
+        if k % 6 == 2 {
+            // the first line of the corpus starts with U+FEFF (a file saved as "UTF-8 with BOM")
+            if let Some(first) = tc.corpus.first_mut() {
+                first.chars.insert(0, '\u{feff}');
+                first.labels.insert(0, 0);
+                first.tags.insert(0, vec![]);
+                ctx.count("corpora_whose_first_line_starts_with_u_feff", 1);
+            }
+        }
         let partial = class == crate::p_train::CorpusClass::PartialAnnotation;
         let mut corpus = String::new();
         for s in &tc.corpus {
@@ -790,9 +831,26 @@ pub fn run_c11cli(ctx: &mut Ctx, from: u64, to: u64) {
         }
         let cpath = scratch(ctx, "corpus.txt");
         let mpath = scratch(ctx, "trained.zst");
-        std::fs::write(&cpath, &corpus).unwrap();
+        // a third of the corpora (and their word lists) come as CRLF files; those runs use --no-norm so that the
+        // words of the trained model can be compared with the word list as given
+        let crlf = k % 3 == 1;
+        let corpus_file = if crlf { corpus.replace('\n', "\r\n") } else { corpus.clone() };
+        std::fs::write(&cpath, &corpus_file).unwrap();
         let _ = std::fs::remove_file(&mpath);
-        let args: Vec<String> = vec![
+        let dpath = scratch(ctx, "words.txt");
+        let dict_words: Vec<String> = tc.cfg.dict.iter().filter(|w| !w.is_empty() && !w.contains(['\n', '\r', '\0'])).cloned().collect();
+        if crlf {
+            let mut d = String::new();
+            for w in &dict_words {
+                let cs: Vec<char> = w.chars().collect();
+                let n = cs.len();
+                d.push_str(&fmt::write_tokenized(&fmt::RefSentence { chars: cs, labels: vec![0; n - 1], tags: vec![vec![]; n] }));
+                d.push_str("\r\n");
+            }
+            std::fs::write(&dpath, d).unwrap();
+            ctx.count("train_cli_runs_on_crlf_files", 1);
+        }
+        let mut args: Vec<String> = vec![
             if partial { "--part".into() } else { "--tok".into() },
             cpath.clone(),
             "--model".into(),
@@ -810,6 +868,13 @@ pub fn run_c11cli(ctx: &mut Ctx, from: u64, to: u64) {
             "--solver".into(),
             tc.solver.to_string(),
         ];
+        if crlf {
+            args.push("--no-norm".into());
+            if !dict_words.is_empty() {
+                args.push("--dict".into());
+                args.push(dpath.clone());
+            }
+        }
         let r = match run_bin(ctx, "train", &args, b"") {
             Ok(r) => r,
             Err(e) => {
@@ -823,6 +888,46 @@ pub fn run_c11cli(ctx: &mut Ctx, from: u64, to: u64) {
         if r.crashed() {
             ctx.violation("C11:train_cli_crashed", J::obj(vec![("args", J::strs(&args)), ("corpus", J::s(clip(&corpus, 600))), ("run", J::s(r.describe()))]));
         } else if r.code == Some(0) {
+            if crlf {
+                // the line terminator is not part of the corpus: no learned n-gram may contain CR, and the model's
+                // words are exactly the given ones
+                if let Some((mir, _)) = std::fs::read(&mpath).ok().and_then(|z| zstd::decode_all(&z[..]).ok()).and_then(|b| ModelData::from_bytes(&b).ok()) {
+                    let cr_ngram = mir.char_ngram_model.iter().find(|d| d.ngram.contains('\r')).map(|d| d.ngram.clone());
+                    let got: std::collections::BTreeSet<String> = mir.dict_model.iter().map(|d| d.word.clone()).collect();
+                    let want: std::collections::BTreeSet<String> = dict_words.iter().cloned().collect();
+                    if cr_ngram.is_some() || got != want {
+                        ctx.violation(
+                            "C10:train_tool_takes_line_terminators_of_crlf_files_for_text",
+                            J::obj(vec![
+                                ("ngram_with_cr", J::s(format!("{:?}", cr_ngram))),
+                                ("model_words", J::s(clip(&format!("{:?}", got), 300))),
+                                ("given_words", J::s(clip(&format!("{:?}", want), 300))),
+                                ("args", J::strs(&args)),
+                            ]),
+                        );
+                    }
+                    ctx.count("models_trained_from_crlf_files_inspected", 1);
+                }
+            }
+            if !crlf {
+                // normalisation is on: everything the model stores is text in normalised form
+                if let Some((mir, _)) = std::fs::read(&mpath).ok().and_then(|z| zstd::decode_all(&z[..]).ok()).and_then(|b| ModelData::from_bytes(&b).ok()) {
+                    let raw: Option<String> = mir
+                        .char_ngram_model
+                        .iter()
+                        .map(|d| d.ngram.clone())
+                        .chain(mir.dict_model.iter().map(|d| d.word.clone()))
+                        .chain(mir.tag_models.iter().map(|t| t.token.clone()))
+                        .find(|x| norm::normalise(x) != *x);
+                    if let Some(x) = raw {
+                        ctx.violation(
+                            "C12:model_trained_by_the_tool_contains_text_the_normaliser_changes",
+                            J::obj(vec![("stored_text", J::s(&x)), ("normalised", J::s(norm::normalise(&x))), ("args", J::strs(&args)), ("corpus", J::s(clip(&corpus, 400)))]),
+                        );
+                    }
+                    ctx.count("models_trained_with_normalisation_inspected", 1);
+                }
+            }
             // the written model must be usable by predict
             let rp = run_bin(ctx, "predict", &["--model".into(), mpath.clone(), "--predict-tags".into()], corpus.replace(' ', "").as_bytes()).unwrap();
             ctx.eval(1);
@@ -965,6 +1070,23 @@ pub fn run_c07cli(ctx: &mut Ctx, from: u64, to: u64) {
                 );
             } else if r.signal.is_some() {
                 ctx.violation(&format!("C07:tool_killed_by_signal_on_failing_output:{tool}"), J::obj(vec![("args", J::strs(&args)), ("run", J::s(r.describe()))]));
+            }
+        }
+        // rewriting a model in place (output path = input path) must leave a complete, equal model behind
+        if k % 4 == 1 {
+            let same = scratch(ctx, "full-inplace.zst");
+            write_zst(&same, &case.model.to_bytes());
+            let r = run_bin(ctx, "manipulate_model", &["--model-in".into(), same.clone(), "--model-out".into(), same.clone()], b"").unwrap();
+            ctx.eval(1);
+            ctx.count("models_rewritten_in_place", 1);
+            let back = std::fs::read(&same).ok().and_then(|z| zstd::decode_all(&z[..]).ok());
+            if r.code == Some(0) && back.as_deref() != Some(&case.model.to_bytes()[..]) {
+                ctx.violation(
+                    "C07:tool_reports_success_but_model_rewritten_in_place_is_damaged",
+                    J::obj(vec![("file_bytes_after", J::i(std::fs::metadata(&same).map(|m| m.len()).unwrap_or(0))), ("run", J::s(r.describe()))]),
+                );
+            } else if r.crashed() {
+                ctx.violation("C07:tool_crashed_rewriting_model_in_place", J::obj(vec![("run", J::s(r.describe()))]));
             }
         }
         // a model file written by a tool and then cut short by a few bytes must be refused by the tools
